@@ -75,7 +75,8 @@ class SimpleModel(object):
 
     def graphs(self):
         H = nx.DiGraph()
-        H.add_nodes_from(self.statuses)
+        if self.case.get('list_all_statuses', True):
+            H.add_nodes_from(self.statuses)      # otherwise only statuses with a spontaneous edge appear (documented as sufficient)
         fn_node, fn_edge = self.fn_node, self.fn_edge
         for A, B, rate, w, mode in self.spont:
             attrs = {'rate': rate}
@@ -163,7 +164,8 @@ def prop_tree(case, walk=None, max_depth=10, max_levels=1500):
     kinds = set()
     for k in model.oracle(model.init):
         kinds.add((model.init[k[0]], k[1], k[2] is None))
-    classes = ['directed' if model.directed else 'undirected']
+    classes = ['directed' if model.directed else 'undirected'] + (['tiny-weights'] if case.get('tiny') else []) + \
+        ([] if case.get('list_all_statuses', True) else ['spontaneous-graph-without-isolated-statuses'])
     if any(m == 'label' for *_, m in model.spont) or any(m == 'label' for *_, m in model.induced):
         classes.append('weight_label')
     if any(m == 'fn' for *_, m in model.spont) or any(m == 'fn' for *_, m in model.induced):
@@ -192,7 +194,8 @@ RATE = st.one_of(st.sampled_from([0.5, 1.0, 2.0]), st.floats(0.05, 5.0, allow_na
 @st.composite
 def spec_case(draw):
     ns = draw(st.integers(2, 4))
-    names = draw(st.sampled_from([['A', 'B', 'C', 'D'], ['S', 'I', 'R', 'E'], ['Sus', 'Inf', 'Rec', 'Vac']]))[:ns]
+    names = draw(st.sampled_from([['A', 'B', 'C', 'D'], ['S', 'I', 'R', 'E'], ['Sus', 'Inf', 'Rec', 'Vac'],
+                                   ['A', 'B', 'AB', 'BA'], ['I', 'S', 'SI', 'IS']]))[:ns]   # compound names spell other statuses
     directed = draw(st.booleans())
     gc = draw(gen.graph_case(3, 5, labels=('int', 'perm', 'str', 'tuple'), directed=directed, weighted=True,
                                  family=draw(st.sampled_from(['random', 'complete', 'cycle', 'star', 'tree', 'path']))))
@@ -227,7 +230,20 @@ def spec_case(draw):
             'fn_rev': [draw(wp) for _ in range(m)],
             'scale_s': draw(st.sampled_from([1.0, 2.0, 0.5])), 'scale_n': draw(st.sampled_from([1.0, 3.0])),
             'tmin': draw(st.sampled_from([0, 0, -1.5, 2])), 'tmax': 'inf',
-            'walk': draw(st.lists(st.integers(0, 7), min_size=0, max_size=10))}
+            'walk': draw(st.lists(st.integers(0, 7), min_size=0, max_size=10)),
+            'list_all_statuses': draw(st.booleans())}
+    if draw(st.integers(0, 4)) == 0:
+        # weights of order 1e-9 with rates of order 1e9: same chain, but the candidate sets' running totals are tiny
+        case['tiny'] = True
+        t = 2.0 ** -30
+        for tab in ('fn_node', 'fn_fwd', 'fn_rev'):
+            case[tab] = [w * t for w in case[tab]]
+        for key in ('ew', 'nw'):
+            if gc.get(key):
+                gc[key] = {lab: [w * t for w in ws] for lab, ws in gc[key].items()}
+        for tr in spont + induced:
+            if tr[-1] in ('label', 'fn'):
+                tr[-2] = tr[-2] / t
     return case
 
 
@@ -244,6 +260,8 @@ def canonical_specs():
          [['IS', 'SS', 'IS', 1.0, None], ['II', 'SS', 'IS', 1.0, None], ['SI', 'SS', 'SI', 1.0, None], ['II', 'SS', 'SI', 1.0, None],
           ['IS', 'SI', 'II', 3.0, None], ['II', 'SI', 'II', 3.0, None], ['SI', 'IS', 'II', 3.0, None], ['II', 'IS', 'II', 3.0, None]]),
         ('vaccination', ['S', 'I', 'R', 'V'], [['I', 'R', 1.0, None], ['S', 'V', 0.3, 'fn']], [['I', 'S', 'I', 2.0, 'fn']]),
+        # compound status names that spell other statuses; the spontaneous graph lists only statuses that have an edge
+        ('compound-names', ['A', 'B', 'AB'], [['A', 'B', 1.0, None]], [['A', 'AB', 'A', 1.5, None], ['B', 'AB', 'B', 0.5, None]]),
     ]
 
 
@@ -259,7 +277,7 @@ def canonical_cases(nmax, quick):
                         ([[edges[0][1], edges[0][0]]] if edges else [])
                     gc = {'nodes': list(range(n)), 'edges': es, 'directed': directed,
                           'ew': {'tw': gen.det_weights(len(es), n)}, 'nw': {'rw': gen.det_weights(n, 1)}}
-                    first_inf = [s for s in statuses if 'I' in s][0]
+                    first_inf = ([s for s in statuses if 'I' in s] or [statuses[-1]])[0]
                     ics = [[first_inf] + [statuses[0]] * (n - 1)]
                     if not quick:
                         ics.append([statuses[i % len(statuses)] for i in range(n)])
@@ -268,7 +286,8 @@ def canonical_cases(nmax, quick):
                         yield {'gc': gc, 'statuses': statuses, 'spont': spont, 'induced': induced, 'IC': IC,
                                'fn_node': gen.det_weights(n, 3), 'fn_fwd': gen.det_weights(len(es), 2),
                                'fn_rev': gen.det_weights(len(es), 4), 'scale_s': 2.0, 'scale_n': 0.5,
-                               'tmin': 0, 'tmax': 'inf', 'depth': 4 if quick else 5, 'model': name}
+                               'tmin': 0, 'tmax': 'inf', 'depth': 4 if quick else 5, 'model': name,
+                               'list_all_statuses': name != 'compound-names'}
 
 
 def replay(ctx, sub, case):
